@@ -58,6 +58,11 @@ LITS = {
     "code_fr": ("code", lambda: Code("FR-PAR"), "c15lits.Code('FR-PAR')"),
     "num_7": ("num", lambda: Num(7), "c15lits.Num(7)"),
     "num_0": ("num", lambda: Num(0), "c15lits.Num(0)"),
+    # EXACT floats that have no literal spelling (the exporter writes exact floats as literals)
+    "f_inf": ("xfloat", lambda: float("inf"), "float('inf')"),
+    "f_ninf": ("xfloat", lambda: float("-inf"), "float('-inf')"),
+    "f_nan": ("xfloat", lambda: float("nan"), "float('nan')"),
+    "f_15": ("xfloat", lambda: 1.5, "1.5"),
 }
 if hasattr(http, "HTTPMethod"):          # StrEnum, Python >= 3.11
     LITS["hm_get"] = ("senum", lambda: http.HTTPMethod.GET, "__import__('http').HTTPMethod.GET")
